@@ -72,6 +72,12 @@ def foreign_names(rng, cfg, naming):
         fixed + b"_r1backup." + sfx,                     # 'r' + digit + text
         fixed + b"_" + (b"r2024-02-29_23-59-58" if naming.startswith("num") else b"r00001") + b"." + sfx,   # an infix of another scheme
     ]
+    if not naming.startswith("num"):
+        # what only chrono's lenient parser reads as a time stamp (no padding, a sign, a blank in front): not a text the
+        # format writes, hence foreign (fixed defect: such files were listed, counted and removed by the cleanup)
+        cands += [fixed + b"_r2024-1-5_3-4-5." + sfx, fixed + b"_r+2024-01-05_03-04-05." + sfx,
+                  fixed + b"_r 2024-01-05_03-04-05." + sfx, fixed + b"_r2024-01-05_03-04-5." + sfx + b".gz",
+                  fixed + b"_r2024-02-29_23-59-5." + sfx]
     return rng.sample(cands, rng.randint(1, 4))
 
 
